@@ -477,10 +477,19 @@ mod internal {
                 self.kktsystem
                     .update(&self.data, &self.cones, &self.settings);
                 // solve for primal/dual initial points via KKT
-                self.kktsystem
-                    .solve_initial_point(&mut self.variables, &self.data, &self.settings);
-                // fix up (z,s) so that they are in the cone
-                self.variables.symmetric_initialization(&mut self.cones);
+                let is_success = self.kktsystem.solve_initial_point(
+                    &mut self.variables,
+                    &self.data,
+                    &self.settings,
+                );
+                if is_success {
+                    // fix up (z,s) so that they are in the cone
+                    self.variables.symmetric_initialization(&mut self.cones);
+                } else {
+                    // a failed solve leaves the variables untouched, i.e. holding
+                    // whatever a previous call to solve() left behind
+                    self.variables.unit_initialization(&self.cones);
+                }
             } else {
                 // Assigns unit (z,s) and zeros the primal variables
                 self.variables.unit_initialization(&self.cones);
